@@ -98,3 +98,32 @@ Proof.
     [lia | lia | reflexivity
     | intros k r Hr Hk; apply len128_md; assumption | exact H].
 Qed.
+
+(* src/sm3_digest.c *)
+Lemma sm3_digest_api_eq key chunks : sm3_digest_api key chunks = sm3_digest_api_spec key (concat chunks).
+Proof.
+  destruct key as [k|]; cbn [sm3_digest_api sm3_digest_api_spec].
+  - destruct ((length k <? 12) || (64 <? length k)); [reflexivity|]. rewrite sm3_hmac_stream. reflexivity.
+  - rewrite sm3_stream. reflexivity.
+Qed.
+
+(* hmac_finish_and_verify accepts exactly the MAC *)
+Lemma mac_verify_iff h mac : mac_verify h mac = true <-> mac = h.
+Proof.
+  unfold mac_verify, bytes_eqb. split.
+  - intros H. apply Bool.andb_true_iff in H. destruct H as [Hl He].
+    apply Nat.eqb_eq in Hl. destruct (list_eq_dec N.eq_dec (firstn (length mac) h) mac) as [E|]; [|discriminate].
+    rewrite Hl, firstn_all in E. symmetry. exact E.
+  - intros ->. rewrite Nat.eqb_refl, firstn_all. destruct (list_eq_dec N.eq_dec h h); [reflexivity|contradiction].
+Qed.
+
+Lemma hmac_verify_generic key chunks mac :
+  (hmacB_verify_sm3 key chunks mac = true <-> mac = hmac_spec sm3 64 key (concat chunks)) /\
+  (hmacB_verify_sha1 key chunks mac = true <-> mac = hmac_spec sha1 64 key (concat chunks)) /\
+  (hmacB_verify_sha224 key chunks mac = true <-> mac = hmac_spec sha224 64 key (concat chunks)) /\
+  (hmacB_verify_sha256 key chunks mac = true <-> mac = hmac_spec sha256 64 key (concat chunks)).
+Proof.
+  destruct (hmac_generic_stream key chunks) as (E1 & E2 & E3 & E4).
+  unfold hmacB_verify_sm3, hmacB_verify_sha1, hmacB_verify_sha224, hmacB_verify_sha256.
+  rewrite <- E1, <- E2, <- E3, <- E4. repeat split; apply mac_verify_iff.
+Qed.
